@@ -31,33 +31,89 @@ theorem ensureClone_eq (s : DocSt) (h : CloneOk s) : ensureClone s = s.root := b
   | none => rfl
   | some c => simpa using h c hc
 
+/-- raising the flag does not change what the body does to the document: the fields other than
+    `updating` of `update` are those of `updateBody` on the unflagged state -/
+theorem update_fields (resets : Bool) (s : DocSt) (ops : List Op) (o : Outcome) :
+    (update resets s ops o).root = (updateBody resets s ops o).root ∧
+    (update resets s ops o).clone = (updateBody resets s ops o).clone ∧
+    (update resets s ops o).locals = (updateBody resets s ops o).locals ∧
+    (update resets s ops o).seq = (updateBody resets s ops o).seq := by
+  cases o with
+  | ok => by_cases h : ops.isEmpty = true <;> simp [update, updateBody, ensureClone, h]
+  | error n => simp [update, updateBody]
+  | rejected => simp [update, updateBody]
+  | panic n => cases resets <;> simp [update, updateBody, ensureClone]
+
 /-- a failed update (error, rejection, and – when the clone is reset – panic) leaves the
     document, its pending changes and its change counter exactly as before -/
 theorem update_failure_noop (resets : Bool) (s : DocSt) (ops : List Op) (o : Outcome) (h : o ≠ .ok) :
     (update resets s ops o).root = s.root ∧ (update resets s ops o).locals = s.locals ∧
     (update resets s ops o).seq = s.seq := by
+  obtain ⟨h1, _, h3, h4⟩ := update_fields resets s ops o
+  rw [h1, h3, h4]
   cases o with
   | ok => exact absurd rfl h
-  | error n => simp [update]
-  | rejected => simp [update]
-  | panic n => cases resets <;> simp [update]
+  | error n => simp [updateBody]
+  | rejected => simp [updateBody]
+  | panic n => cases resets <;> simp [updateBody]
+
+/-- **… and its undo history exactly as usable as before.**  Whatever the outcome of an update
+    – success, callback error, callback panic at any position, rejection by schema or size limit –
+    the flag `updating` is lowered when `Update` is left: `Undo`, `Redo` and `ClearHistory` do not
+    refuse afterwards, and `CanUndo`/`CanRedo` report exactly whether the stack is non-empty.
+    (A flag that stays raised after a panicking callback makes the history unusable although the
+    stacks still hold their entries.) -/
+theorem failed_update_keeps_history_usable (resets : Bool) (s : DocSt) (ops : List Op) (o : Outcome) :
+    (update resets s ops o).updating = false ∧ historyRefuses (update resets s ops o) = false ∧
+    ∀ depth, canUndo (update resets s ops o) depth = decide (0 < depth) := by
+  have h : (update resets s ops o).updating = false := rfl
+  exact ⟨h, h, fun depth => by simp [canUndo, h]⟩
+
+/-- the flag is lowered after every history of updates (any outcome), remote packs, snapshots and
+    acknowledgements: between two calls the undo history is always usable -/
+theorem history_usable_after_every_history (resets : Bool) (evs : List Ev) :
+    (run resets DocSt.init evs).updating = false := by
+  suffices ∀ s : DocSt, s.updating = false → (run resets s evs).updating = false from this _ rfl
+  induction evs with
+  | nil => intro s h; exact h
+  | cons e r ih =>
+    intro s h
+    apply ih
+    cases e with
+    | update ops o => rfl
+    | remote ops => exact h
+    | snapshot d => exact h
+    | ack n => exact h
+
+/-- non-vacuity of the flag: while the callback runs it IS raised (a re-entrant `Undo` refuses),
+    for every outcome -/
+theorem updating_raised_inside_update (resets : Bool) (s : DocSt) (ops : List Op) (o : Outcome) :
+    historyRefuses (updateBody resets { s with updating := true } ops o) = true := by
+  cases o with
+  | ok => by_cases h : ops.isEmpty = true <;> simp [historyRefuses, updateBody, h]
+  | error n => simp [historyRefuses, updateBody]
+  | rejected => simp [historyRefuses, updateBody]
+  | panic n => cases resets <;> simp [historyRefuses, updateBody]
 
 /-- one step preserves clone ≡ root, provided a panicking callback cannot leave a dirty clone -/
 theorem cloneOk_step (s : DocSt) (e : Ev) (h : CloneOk s) : CloneOk (step true s e) := by
   have hc := ensureClone_eq s h
   cases e with
   | update ops o =>
+    obtain ⟨h1, h2, _, _⟩ := update_fields true s ops o
+    intro c hcl
+    simp only [step] at hcl ⊢
+    rw [h2] at hcl; rw [h1]
     cases o with
     | ok =>
-      intro c hcl
       by_cases hops : ops.isEmpty = true
-      · simp only [step, update, hops, if_true, Option.some.injEq] at hcl ⊢
+      · simp only [updateBody, hops, if_true, Option.some.injEq] at hcl ⊢
         subst hcl; exact hc
-      · simp only [step, update, hops, Bool.false_eq_true, if_false, Option.some.injEq] at hcl ⊢
+      · simp only [updateBody, hops, Bool.false_eq_true, if_false, Option.some.injEq] at hcl ⊢
         subst hcl; rw [hc]
-    | error n => intro c hcl; simp [step, update] at hcl
-    | rejected => intro c hcl; simp [step, update] at hcl
-    | panic n => intro c hcl; simp [step, update] at hcl
+    | error n => simp [updateBody] at hcl
+    | rejected => simp [updateBody] at hcl
+    | panic n => simp [updateBody] at hcl
   | remote ops =>
     intro c hcl
     simp only [step, applyRemote, Option.some.injEq] at hcl ⊢
@@ -106,7 +162,9 @@ theorem panic_dirty_clone_witness :
 theorem update_ok_effect (resets : Bool) (s : DocSt) (ops : List Op) (h : ops ≠ []) :
     (update resets s ops .ok).root.d = applyAll s.root.d ops ∧
     (update resets s ops .ok).locals = s.locals ++ [ops] ∧ (update resets s ops .ok).seq = s.seq + 1 := by
-  simp [update, h, applyAllB_d]
+  obtain ⟨h1, _, h3, h4⟩ := update_fields resets s ops .ok
+  rw [h1, h3, h4]
+  simp [updateBody, h, applyAllB_d]
 
 /-- the model runs with the value the code has now -/
 theorem model_uses_current_behaviour : panicResetsClone = true := rfl
